@@ -85,6 +85,10 @@ type FileInfo struct {
 
 	SingleLine bool
 
+	// positionsDetected is set when DelimiterPositions were found automatically while the file was read: such
+	// positions tell where the fields end, without the blanks between them, and are not used for writing.
+	positionsDetected bool
+
 	Handler *file.Handler
 
 	ForUpdate bool
@@ -216,6 +220,7 @@ func (f *FileInfo) SetDelimiterPositions(s string) error {
 	f.Format = format
 	f.DelimiterPositions = delimiterPositions
 	f.SingleLine = singleLine
+	f.positionsDetected = false
 
 	return nil
 }
@@ -361,7 +366,11 @@ func (f *FileInfo) ExportOptions(tx *Transaction) option.ExportOptions {
 	ops := tx.Flags.ExportOptions.Copy()
 	ops.Format = f.Format
 	ops.Delimiter = f.Delimiter
-	ops.DelimiterPositions = f.DelimiterPositions
+	if !f.positionsDetected {
+		ops.DelimiterPositions = f.DelimiterPositions
+	} else {
+		ops.DelimiterPositions = nil
+	}
 	ops.SingleLine = f.SingleLine
 	ops.Encoding = f.Encoding
 	ops.LineBreak = f.LineBreak
